@@ -3,11 +3,12 @@
 # imports the confirmed ones into /verif/seeded/<PROP>-m<k>/
 set -u
 P=$1
-WT=/tmp/wt-$P
+WT=${2:-/tmp/wt-$P}
+TAG=${3:-m}
 for d in $WT/out/m*; do
   [ -d "$d" ] || continue
   k=$(basename $d)
-  dest=/verif/seeded/$P-$k
+  dest=/verif/seeded/$P-$TAG${k#m}
   git -C $WT checkout -q -- src
   # demo passes on pristine
   (cd $WT && PYTHONPATH=$WT/src timeout 300 /venv/bin/python out/$k/demo.py >/dev/null 2>&1); pristine=$?
